@@ -10,6 +10,10 @@
 //	                race detection)
 //	-mode globals   adds VerifGlobals() to every package: pointers to all
 //	                package-level variables
+//	-mode pkgvars   every use of a package-level variable of the repository goes
+//	                through zzverifrt.RP (read) or WP (assignment to it or to
+//	                anything reached through it, ++/--, address taken, pointer-
+//	                receiver method called on it)
 //
 // Modes can be combined (comma separated).  -replace rel=file loads the named
 // repository file from another path (used to instrument mutated sources).
@@ -42,7 +46,7 @@ func (m *multi) Set(s string) error { *m = append(*m, s); return nil }
 
 func main() {
 	var (
-		mode    = flag.String("mode", "maporder", "maporder,sync,globals")
+		mode    = flag.String("mode", "maporder", "maporder,sync,globals,pkgvars")
 		out     = flag.String("out", "", "overlay json to write")
 		gen     = flag.String("gen", "", "directory for generated files")
 		rt      = flag.String("rt", "", "source file of the zzverifrt package")
@@ -111,6 +115,9 @@ func main() {
 			changed := false
 			if modes["maporder"] {
 				changed = in.mapOrder(f) || changed
+			}
+			if modes["pkgvars"] {
+				changed = in.pkgVars(f) || changed
 			}
 			if modes["sync"] && in.usesSync {
 				changed = in.syncShim(f) || changed
@@ -440,6 +447,161 @@ func (in *instr) syncShim(f *ast.File) bool {
 			skip[n] = true
 			c.Replace(repl)
 			changed = true
+		}
+		return true
+	}, nil)
+	return changed
+}
+
+// pkgVars hooks every use of a package-level variable of the repository:
+// reads become (*zzverifrt.RP(&v, site)), writes (assignment to the variable or
+// to anything reached through it, ++/--, taking its address) become
+// (*zzverifrt.WP(&v, site)).  Operands of len/cap are left alone (they may be
+// constant expressions).
+func (in *instr) pkgVars(f *ast.File) bool {
+	info := in.pkg.TypesInfo
+	isPkgVar := func(id *ast.Ident) *types.Var {
+		v, ok := info.Uses[id].(*types.Var)
+		if !ok || v.IsField() || v.Pkg() == nil || v.Parent() != v.Pkg().Scope() {
+			return nil
+		}
+		if !strings.HasPrefix(v.Pkg().Path(), "seehuhn.de/go/postscript") {
+			return nil
+		}
+		return v
+	}
+	// qualified returns the variable a pkg.Name selector denotes
+	qualified := func(sel *ast.SelectorExpr) *types.Var {
+		x, ok := sel.X.(*ast.Ident)
+		if !ok {
+			return nil
+		}
+		if _, ok := info.Uses[x].(*types.PkgName); !ok {
+			return nil
+		}
+		return isPkgVar(sel.Sel)
+	}
+	writeRoot := map[ast.Node]bool{}
+	var markRoot func(e ast.Expr)
+	markRoot = func(e ast.Expr) {
+		switch e := e.(type) {
+		case *ast.ParenExpr:
+			markRoot(e.X)
+		case *ast.SelectorExpr:
+			if qualified(e) != nil {
+				writeRoot[e] = true
+				return
+			}
+			markRoot(e.X)
+		case *ast.IndexExpr:
+			markRoot(e.X)
+		case *ast.SliceExpr:
+			markRoot(e.X)
+		case *ast.StarExpr:
+			markRoot(e.X)
+		case *ast.Ident:
+			writeRoot[e] = true
+		}
+	}
+	noHook := map[ast.Node]bool{}
+	ast.Inspect(f, func(n ast.Node) bool {
+		switch n := n.(type) {
+		case *ast.AssignStmt:
+			if n.Tok != token.DEFINE {
+				for _, l := range n.Lhs {
+					markRoot(l)
+				}
+			}
+		case *ast.IncDecStmt:
+			markRoot(n.X)
+		case *ast.UnaryExpr:
+			if n.Op == token.AND {
+				markRoot(n.X)
+			}
+		case *ast.CallExpr:
+			if id, ok := n.Fun.(*ast.Ident); ok && (id.Name == "len" || id.Name == "cap") && len(n.Args) == 1 {
+				if _, isBuiltin := info.Uses[id].(*types.Builtin); isBuiltin {
+					noHook[unparen(n.Args[0])] = true
+				}
+			}
+			// v.M() with a pointer-receiver method on an addressable value takes &v
+			if fun, ok := n.Fun.(*ast.SelectorExpr); ok {
+				if sel := info.Selections[fun]; sel != nil && sel.Kind() == types.MethodVal {
+					if sig, ok := sel.Obj().Type().(*types.Signature); ok && sig.Recv() != nil {
+						_, ptrRecv := sig.Recv().Type().(*types.Pointer)
+						_, ptrExpr := sel.Recv().Underlying().(*types.Pointer)
+						if ptrRecv && !ptrExpr {
+							markRoot(fun.X)
+						}
+					}
+				}
+			}
+		case *ast.ValueSpec:
+			// declared array lengths and constant expressions stay untouched
+			if n.Type != nil {
+				ast.Inspect(n.Type, func(m ast.Node) bool {
+					if m != nil {
+						noHook[m] = true
+					}
+					return true
+				})
+			}
+		case *ast.ArrayType:
+			if n.Len != nil {
+				ast.Inspect(n.Len, func(m ast.Node) bool {
+					if m != nil {
+						noHook[m] = true
+					}
+					return true
+				})
+			}
+		}
+		return true
+	})
+	changed := false
+	wrap := func(c *astutil.Cursor, n ast.Expr, v *types.Var) {
+		fn := "RP"
+		if writeRoot[n] {
+			fn = "WP"
+		}
+		site := in.site(n.Pos(), "var-"+fn+"-"+v.Pkg().Name()+"."+v.Name())
+		c.Replace(&ast.ParenExpr{X: &ast.StarExpr{X: rtCall(fn, &ast.UnaryExpr{Op: token.AND, X: n}, strLit(site))}})
+		changed = true
+	}
+	astutil.Apply(f, func(c *astutil.Cursor) bool {
+		n := c.Node()
+		if n == nil {
+			return true
+		}
+		if noHook[n] {
+			return false
+		}
+		switch n := n.(type) {
+		case *ast.GenDecl:
+			// package-level declarations: initialisers run before any goroutine exists
+			if _, top := c.Parent().(*ast.File); top {
+				return false
+			}
+		case *ast.SelectorExpr:
+			if v := qualified(n); v != nil {
+				wrap(c, n, v)
+				return false
+			}
+			// only the operand can be a variable use; Sel is a field or method
+			return true
+		case *ast.Ident:
+			if sel, ok := c.Parent().(*ast.SelectorExpr); ok && sel.Sel == n {
+				return false
+			}
+			if kv, ok := c.Parent().(*ast.KeyValueExpr); ok && kv.Key == n {
+				if _, isVar := info.Uses[n].(*types.Var); isVar && info.Uses[n].(*types.Var).IsField() {
+					return false
+				}
+			}
+			if v := isPkgVar(n); v != nil {
+				wrap(c, n, v)
+				return false
+			}
 		}
 		return true
 	}, nil)
